@@ -209,7 +209,8 @@ def parent(prop, tier, seed):
     agg = Agg()
     inconclusive = []
     # 1. canonical witnesses of recorded findings (known: must still fail; fixed: must not)
-    known_lines, kf_viol = findings.run_witnesses(prop, run_one)
+    known_lines, kf_viol, kf_err = findings.run_witnesses(prop, run_one)
+    inconclusive.extend(f"monitor error: {x}" for x in kf_err)
     # 2. generated workload
     if jobs == 1:
         agg = run_range(prop, tier, seed, range(n))
